@@ -209,6 +209,46 @@ func newOrigin(idx int, seed uint64, useTLS bool) (*origin, error) {
 
 // one tagged request; returns "" or a description of what went wrong.
 func doTagged(c *req.Client, base, tag, kind, round string, clone bool) (problem string, proto string, errored bool) {
+	problem, proto, errored, _ = doTaggedBody(c, base, tag, kind, round, clone)
+	return
+}
+
+// coqRLE renders a byte string as a Coq term of type bytes with long runs of one byte written
+// as (rep n xHH), so that a 64 KB body of padding costs a few dozen characters of Coq source
+// (a shard is parsed as ONE term; tens of MB of hex literals overflow coqc's stack).  Exact,
+// not a projection: the term evaluates to the very same byte list.
+func coqRLE(b []byte) string {
+	const minRun = 48
+	var segs []string
+	lit := 0 // start of the pending literal segment
+	flush := func(end int) {
+		if end > lit {
+			segs = append(segs, hk.CoqBytes(b[lit:end]))
+		}
+	}
+	for i := 0; i < len(b); {
+		j := i
+		for j < len(b) && b[j] == b[i] {
+			j++
+		}
+		if j-i >= minRun {
+			flush(i)
+			segs = append(segs, fmt.Sprintf("(rep %d%%N x%02x)", j-i, b[i]))
+			lit = j
+		}
+		i = j
+	}
+	flush(len(b))
+	if len(segs) == 0 {
+		return hk.CoqBytes(nil)
+	}
+	if len(segs) == 1 {
+		return segs[0]
+	}
+	return "(" + strings.Join(segs, " ++ ") + ")"
+}
+
+func doTaggedBody(c *req.Client, base, tag, kind, round string, clone bool) (problem string, proto string, errored bool, body string) {
 	rq := c.R().SetHeader("X-Tag", tag).SetHeader("X-Round", round)
 	if clone {
 		rq.SetHeader("X-Clone", "1")
@@ -225,43 +265,43 @@ func doTagged(c *req.Client, base, tag, kind, round string, clone bool) (problem
 	}
 	resp, err := rq.Send(method, base+"/?k="+kind)
 	if err != nil {
-		return "", "", true
+		return "", "", true, ""
 	}
 	if resp.Response == nil {
-		return "nil response without error", "", false
+		return "nil response without error", "", false, ""
 	}
 	proto = resp.Proto
 	if e := resp.Header.Get("X-Tag-Echo"); e != tag {
-		return fmt.Sprintf("header echo %q", e), proto, false
+		return fmt.Sprintf("header echo %q", e), proto, false, ""
 	}
 	want := strings.Join(chunksOf(tag, kind), "")
 	switch kind {
 	case "head":
-		return "", proto, false
+		return "", proto, false, ""
 	case "early":
 		buf := make([]byte, len(tag)+3)
 		_, rerr := io.ReadFull(resp.Body, buf)
 		resp.Body.Close()
 		if rerr != nil {
-			return "", proto, true
+			return "", proto, true, ""
 		}
 		if string(buf) != want[:len(buf)] {
-			return fmt.Sprintf("body prefix %q", string(buf)), proto, false
+			return fmt.Sprintf("body prefix %q", string(buf)), proto, false, string(buf)
 		}
-		return "", proto, false
+		return "", proto, false, string(buf)
 	}
 	got, rerr := resp.ToString()
 	if rerr != nil {
-		return "", proto, true
+		return "", proto, true, ""
 	}
 	if got != want {
 		g := got
 		if len(g) > 60 {
 			g = g[:60]
 		}
-		return fmt.Sprintf("body %q (len %d, want len %d)", g, len(got), len(want)), proto, false
+		return fmt.Sprintf("body %q (len %d, want len %d)", g, len(got), len(want)), proto, false, got
 	}
-	return "", proto, false
+	return "", proto, false, got
 }
 
 func snapCoq(cfg replayCfg, snap req.VerifPoolSnap, keys []string, ids map[net.Conn]int) (string, bool) {
@@ -494,7 +534,7 @@ func emitDemux(cr *childResult, o *origin, results map[string]string, label stri
 		var open, wire, recv []string
 		interleaved := false
 		for i, e := range log {
-			wire = append(wire, hk.CoqPair(fmt.Sprint(sid[e[0]]), hk.CoqStr(e[1])))
+			wire = append(wire, hk.CoqPair(fmt.Sprint(sid[e[0]]), coqRLE([]byte(e[1]))))
 			if i > 0 && log[i-1][0] != e[0] {
 				interleaved = true
 			}
@@ -505,7 +545,7 @@ func emitDemux(cr *childResult, o *origin, results map[string]string, label stri
 				continue // the caller failed / was not waiting: stream not compared
 			}
 			open = append(open, fmt.Sprint(sid[tag]))
-			recv = append(recv, hk.CoqPair(fmt.Sprint(sid[tag]), hk.CoqStr(body)))
+			recv = append(recv, hk.CoqPair(fmt.Sprint(sid[tag]), coqRLE([]byte(body))))
 		}
 		if len(open) == 0 || len(log) > 400 {
 			continue
@@ -529,7 +569,7 @@ func runMux(cr *childResult, rng *hk.Rand, c *req.Client, base string, o *origin
 			for i := 0; i < n/callers; i++ {
 				kind := hk.Pick(lr, []string{"multi", "multi", "big", "get", "post", "head"})
 				tag := fmt.Sprintf("%s-g%d-i%d", roundID, g, i)
-				problem, proto, errored := doTagged(c, base, tag, kind, roundID, false)
+				problem, proto, errored, body := doTaggedBody(c, base, tag, kind, roundID, false)
 				mu.Lock()
 				if problem != "" {
 					cr.fail(hk.Failure{Sig: "crosstalk:" + label + ":" + kind, What: "caller did not receive the response to its own request on a multiplexed connection",
@@ -541,7 +581,7 @@ func runMux(cr *childResult, rng *hk.Rand, c *req.Client, base string, o *origin
 					cr.count(label + ".requests_ok")
 					cr.count(label + ".proto=" + proto)
 					if kind != "head" {
-						results[tag] = strings.Join(chunksOf(tag, kind), "")
+						results[tag] = body // the bytes this caller actually read
 					}
 					if wantProto != "" && proto != wantProto {
 						cr.count(label + ".unexpected_proto=" + proto)
@@ -552,7 +592,7 @@ func runMux(cr *childResult, rng *hk.Rand, c *req.Client, base string, o *origin
 		}(g)
 	}
 	wg.Wait()
-	// results holds what each caller verified it received (doTagged compared the bytes)
+	// results holds the bytes each caller actually read from its response body
 	emitDemux(cr, o, results, label)
 }
 
